@@ -115,7 +115,21 @@ def _axis(call):
     return const(ax) if ax is not None else None
 
 
+def _add_terms(e):
+    if isinstance(e, ast.BinOp) and isinstance(e.op, ast.Add):
+        return _add_terms(e.left) + _add_terms(e.right)
+    return [e]
+
+
+def _mul_factors(e):
+    if isinstance(e, ast.BinOp) and isinstance(e.op, ast.Mult):
+        return _mul_factors(e.left) + _mul_factors(e.right)
+    return [e]
+
+
 def r2(ctx):
+    """Decided on the *value returned* (all locals expanded flow-sensitively),
+    so that temporaries, re-bindings and operand order do not matter."""
     fi = ctx.repo.func('hotspot', 'calculate_temps')
     body = [s for s in fi.node.body if not (isinstance(s, ast.Expr) and
                                            isinstance(s.value, ast.Constant))]
@@ -132,105 +146,100 @@ def r2(ctx):
                  "%s['statistical']" % hcf: Iv.point(1.0),
                  INs: Iv.gt(0.0), OUTs: Iv.ge(0.0), T_in: Iv.gt(0.0)},
     }
-    res = {}
-    for nm, env in scen.items():
-        it = Interp(env)
-        it.run([s for s in body if not isinstance(s, ast.Return)])
-        res[nm] = it
+    res = {nm: Interp(env) for nm, env in scen.items()}
     ret = [s for s in body if isinstance(s, ast.Return)]
-    rname = src(ret[0].value) if ret else None
-    # base definition of the result and its increments
-    base = [s for s in body if isinstance(s, ast.Assign)
-            and src(s.targets[0]) == rname]
-    incs = [s for s in body if isinstance(s, ast.AugAssign)
-            and src(s.target) == rname]
-    ok = len(base) == 1 and isinstance(base[0].value, ast.BinOp) and \
-        isinstance(base[0].value.op, ast.Add) and \
-        src(base[0].value.left) == T_in
-    cum = base[0].value.right if ok else None
-    ok = ok and isinstance(cum, ast.Call) and call_name(cum) == 'np.cumsum' \
-        and _axis(cum) in (1, -1)
-    ctx.require(ok, 'C19.R2', fi, base[0] if base else fi.node,
+    if len(ret) != 1 or ret[0] is not body[-1]:
+        raise AnalysisError('calculate_temps: return shape')
+    R = U.value_at(fi.node, ret[0].value, ret[0].lineno)
+    ctx.extra['returned_value'] = ' '.join(src(R).split())[:600]
+    terms = _add_terms(R)
+    t_in = [t for t in terms if src(t) == T_in]
+    cums = [t for t in terms if isinstance(t, ast.Call)
+            and call_name(t) == 'np.cumsum']
+    incs = [t for t in terms if t not in t_in and t not in cums]
+    ok = len(t_in) == 1 and len(cums) == 1 and _axis(cums[0]) in (1, -1)
+    ctx.require(ok, 'C19.R2', fi, ret[0],
                 'the nominal part must be T_in + cumsum(zero-sigma dT) along '
                 'the term axis (cumulative coolant -> clad -> fuel)',
                 key=fi.full + ' | cumulative base')
-    zs = src(cum.args[0]) if ok else None
+    cum = cums[0] if ok else None
     # zero-sigma dT = dT * prod(direct, axis=1)
-    zd = [s for s in body if isinstance(s, ast.Assign)
-          and src(s.targets[0]) == zs]
-    okz = len(zd) == 1 and isinstance(zd[0].value, ast.BinOp) and \
-        isinstance(zd[0].value.op, ast.Mult) and \
-        dT in (src(zd[0].value.left), src(zd[0].value.right))
     fac = None
-    if okz:
-        fac = zd[0].value.right if src(zd[0].value.left) == dT \
-            else zd[0].value.left
-        fv_g = res['general'].ev(fac)
-        fv_u = res['unit'].ev(fac)
-        okz = fv_g.at_least(1.0) and fv_u.is_point(1.0)
-    ctx.require(okz, 'C19.R2', fi, zd[0] if zd else fi.node,
+    okz = False
+    if cum is not None:
+        fs = _mul_factors(cum.args[0])
+        dts = [f for f in fs if src(f) == dT]
+        others = [f for f in fs if src(f) != dT]
+        okz = len(dts) == 1 and len(others) == 1
+        if okz:
+            fac = others[0]
+            fv_g = res['general'].ev(fac)
+            fv_u = res['unit'].ev(fac)
+            okz = fv_g.at_least(1.0) and fv_u.is_point(1.0)
+    ctx.require(okz, 'C19.R2', fi, ret[0],
                 'zero-sigma rise must be dT times a factor proved >= 1 (== 1 '
                 'when all direct subfactors are 1)',
                 key=fi.full + ' | direct factor >= 1')
-    fd = U.single_def(fi.node, src(fac)) if fac is not None and isinstance(
-        fac, ast.Name) else fac
-    ctx.require(fd is not None and isinstance(fd, ast.Call) and
-                call_name(fd) == 'np.prod' and _axis(fd) == 1 and
-                src(fd.args[0]) == "%s['direct']" % hcf, 'C19.R2', fi,
-                fd if fd is not None else fi.node,
+    ctx.require(fac is not None and isinstance(fac, ast.Call) and
+                call_name(fac) == 'np.prod' and _axis(fac) == 1 and
+                src(fac.args[0]) == "%s['direct']" % hcf, 'C19.R2', fi,
+                ret[0],
                 'direct factor = product over the subfactor axis (axis=1)',
                 key=fi.full + ' | prod axis')
     # increments: each proved >= 0, == 0 in the unit scenario
-    ctx.require(len(incs) == 1 and isinstance(incs[0].op, ast.Add), 'C19.R2',
-                fi, incs[0] if incs else fi.node,
+    ctx.require(len(incs) == 1, 'C19.R2', fi, ret[0],
                 'exactly one statistical increment is added to the result',
                 key=fi.full + ' | one increment')
-    for s in incs:
-        g = res['general'].ev(s.value)
-        u = res['unit'].ev(s.value)
-        ctx.require(g.nonneg(), 'C19.R2', fi, s,
+    n_out = sum(1 for n in ast.walk(R) if isinstance(n, ast.Name)
+                and n.id == OUTs)
+    n_in = sum(1 for n in ast.walk(R) if isinstance(n, ast.Name)
+               and n.id == INs)
+    for e in incs:
+        g = res['general'].ev(e)
+        u = res['unit'].ev(e)
+        ctx.require(g.nonneg(), 'C19.R2', fi, ret[0],
                     'the statistical increment is not provably >= 0 (%r): '
                     'hot-spot temperatures could fall below nominal' % g,
                     key=fi.full + ' | increment >= 0')
-        ctx.require(u.is_zero(), 'C19.R2', fi, s,
+        ctx.require(u.is_zero(), 'C19.R2', fi, ret[0],
                     'with all subfactors equal to one the increment must '
                     'vanish exactly (found %r)' % u,
                     key=fi.full + ' | increment 0 at unit subfactors')
-        # linear in OUT_sigma, inverse in IN_sigma, each occurring once
-        pf = _factors(s.value)
+        pf = _factors(e)
         okp = pf is not None and [src(x) for x in pf[0]].count(OUTs) == 1 \
-            and [src(x) for x in pf[1]] == [INs] and \
-            sum(1 for n in ast.walk(fi.node) if isinstance(n, ast.Name)
-                and n.id == OUTs and isinstance(n.ctx, ast.Load)) == 1 and \
-            sum(1 for n in ast.walk(fi.node) if isinstance(n, ast.Name)
-                and n.id == INs and isinstance(n.ctx, ast.Load)) == 1
-        ctx.require(okp, 'C19.R2', fi, s,
+            and [src(x) for x in pf[1]] == [INs] and n_out == 1 and n_in == 1
+        ctx.require(okp, 'C19.R2', fi, ret[0],
                     'the increment must be OUT_sigma * (...) / IN_sigma with '
                     'each sigma occurring once', key=fi.full + ' | sigmas')
     # statistical part: (stat - 1), cumulated along terms, root-sum-square
     # over subfactors
-    m1 = [s for s in body if isinstance(s, ast.Assign) and
-          src(s.value) == "%s['statistical'] - 1" % hcf]
-    ctx.require(len(m1) == 1, 'C19.R2', fi, m1[0] if m1 else fi.node,
+    m1 = [n for n in ast.walk(R) if isinstance(n, ast.BinOp)
+          and isinstance(n.op, ast.Sub)
+          and src(n.left) == "%s['statistical']" % hcf
+          and const(n.right) == 1]
+    ctx.require(len(m1) >= 1, 'C19.R2', fi, ret[0],
                 'uncertainty fractions are (statistical - 1)',
                 key=fi.full + ' | stat - 1')
-    cs = [c for c in ast.walk(fi.node) if isinstance(c, ast.Call)
+    cs = [c for c in ast.walk(R) if isinstance(c, ast.Call)
           and call_name(c) == 'np.cumsum' and c is not cum]
-    ctx.require(len(cs) == 1 and _axis(cs[0]) == 2, 'C19.R2', fi,
-                cs[0] if cs else fi.node, 'uncertainties accumulate along '
+    ctx.require(len(cs) >= 1 and all(_axis(c) == 2 for c in cs), 'C19.R2',
+                fi, ret[0], 'uncertainties accumulate along '
                 'the term axis (axis=2)', key=fi.full + ' | unc cumsum axis')
-    rs = [c for c in ast.walk(fi.node) if isinstance(c, ast.Call)
+    rs = [c for c in ast.walk(R) if isinstance(c, ast.Call)
           and call_name(c) == 'np.sqrt']
-    ok = len(rs) == 1 and isinstance(rs[0].args[0], ast.Call) and \
-        call_name(rs[0].args[0]) == 'np.sum' and _axis(rs[0].args[0]) == 1 \
-        and isinstance(rs[0].args[0].args[0], ast.BinOp) and \
-        isinstance(rs[0].args[0].args[0].op, ast.Pow) and \
-        const(rs[0].args[0].args[0].right) == 2
-    ctx.require(ok, 'C19.R2', fi, rs[0] if rs else fi.node,
+    ok = len(rs) >= 1 and all(
+        isinstance(r_.args[0], ast.Call) and
+        call_name(r_.args[0]) == 'np.sum' and _axis(r_.args[0]) == 1
+        and isinstance(r_.args[0].args[0], ast.BinOp) and
+        isinstance(r_.args[0].args[0].op, ast.Pow) and
+        const(r_.args[0].args[0].right) == 2 for r_ in rs)
+    ctx.require(ok, 'C19.R2', fi, ret[0],
                 'root-sum-square over the subfactor axis (axis=1)',
                 key=fi.full + ' | rss axis')
-    ctx.extra['intervals_general'] = {k: repr(v) for k, v in
-                                      res['general'].env.items()}
+    ctx.extra['intervals_general'] = {
+        'direct factor': repr(res['general'].ev(fac)) if fac is not None
+        else None,
+        'increment': [repr(res['general'].ev(e)) for e in incs]}
 
 
 def _factors(e):
